@@ -73,6 +73,14 @@ func genRange(t *rapid.T, l *layout, blockEnd bool) (index int, offset, length i
 	if rapid.IntRange(0, 3).Draw(t, "lastpiece") == 0 {
 		index = l.npieces() - 1
 	}
+	return genRangeAt(t, l, index, blockEnd)
+}
+
+func genRangeIn(t *rapid.T, l *layout, index int) (int, int64, int64) {
+	return genRangeAt(t, l, index, false)
+}
+
+func genRangeAt(t *rapid.T, l *layout, index int, blockEnd bool) (_ int, offset, length int64) {
 	nb := l.nblocks(index)
 	b0 := rapid.IntRange(0, nb-1).Draw(t, "firstblock")
 	if rapid.Bool().Draw(t, "fromstart") {
@@ -89,14 +97,20 @@ func genRange(t *rapid.T, l *layout, blockEnd bool) (index int, offset, length i
 	} else {
 		length = rapid.Int64Range(1, pl-offset).Draw(t, "length")
 	}
-	return
+	return index, offset, length
 }
 
 func TestC14aFileChunks(t *testing.T) {
 	rapid.Check(t, func(t *rapid.T) {
-		l := genLayout(t, layoutOpts{maxPieces: 6})
+		l := genLayout(t, layoutOpts{maxPieces: 6, giant: true})
 		tr := l.parse(t, nil, nil, nil)
 		index, offset, length := genRange(t, l, false)
+		if l.giant && rapid.Bool().Draw(t, "beyond") {
+			// aim beyond the 4 GiB line
+			first := int((1 << 32) / l.ps)
+			index = rapid.IntRange(max(first-1, 0), l.npieces()-1).Draw(t, "giantIndex")
+			_, offset, length = genRangeIn(t, l, index)
+		}
 		got := tor.VerifFileChunks(tr, uint32(index), uint32(offset), uint32(length))
 		if f := checkChunks(l, index, offset, length, got); f != "" {
 			t.Fatalf("C14(a) range→file mapping: %s\nlayout: %v\nrange: piece %d offset %d length %d\nchunks: %+v", f, l, index, offset, length, got)
@@ -126,6 +140,12 @@ func TestC14aFileChunks(t *testing.T) {
 		}
 		if length%blk != 0 {
 			labels = append(labels, "length-not-block-multiple")
+		}
+		if int64(index)*l.ps+offset+length > 1<<32 {
+			labels = append(labels, "range-beyond-4GiB")
+			if int64(index)*l.ps+offset < 1<<32 {
+				labels = append(labels, "range-across-4GiB")
+			}
 		}
 		if int64(index)*l.ps+offset+length == l.total && l.total%blk != 0 {
 			labels = append(labels, "range-to-short-last-block")
